@@ -276,24 +276,30 @@ def handleStateResult (c : Cfg) (now : Nat) (s : Subn) (a : Action) (n : Option 
       enqueueNotification { s with seqNext := s.seqNext + 1, items := [] }
         { seq := s.seqNext, time := now, body := .status 1 }
 
+/-- first part of `Subscription::tick`: has the publishing interval elapsed?
+(`test_and_set_publishing_interval_elapsed`; only on the timer, always in the Creating state) -/
+def elapsedStep (now : Nat) (timerTick : Bool) (s : Subn) : Subn × Bool :=
+  if !timerTick then (s, false)
+  else if s.state = .creating then (s, true)
+  else match s.lastElapsed with
+    | none => ({ s with lastElapsed := some now }, true)
+    | some t => if now - t ≥ s.interval then ({ s with lastElapsed := some now }, true) else (s, false)
+
+/-- second part: `tick_monitored_items` and the data change notification built from what the items
+handed over (it takes the next sequence number) -/
+def collectStep (nodes : List (Nat × Nat)) (now : Nat) (elapsed : Bool) (s : Subn) : Subn × Option Msg :=
+  if s.state = .closed ∨ s.state = .creating then (s, none)
+  else
+    let (items, es) := tickItems nodes now elapsed false s.items
+    if es.isEmpty then ({ s with items := items }, none)
+    else ({ s with items := items, seqNext := s.seqNext + 1 },
+          some { seq := s.seqNext, time := now, body := .data es })
+
 /-- `Subscription::tick`; `timerTick = false` is `TickReason::ReceivePublishRequest` -/
 def subTick (c : Cfg) (nodes : List (Nat × Nat)) (now : Nat) (timerTick reqQueued : Bool) (s : Subn) :
     Outcome Subn :=
-  -- publishing_interval_elapsed
-  let (s, elapsed) : Subn × Bool :=
-    if !timerTick then (s, false)
-    else if s.state = .creating then (s, true)
-    else match s.lastElapsed with
-      | none => ({ s with lastElapsed := some now }, true)
-      | some t => if now - t ≥ s.interval then ({ s with lastElapsed := some now }, true) else (s, false)
-  -- tick_monitored_items
-  let (s, notification) : Subn × Option Msg :=
-    if s.state = .closed ∨ s.state = .creating then (s, none)
-    else
-      let (items, es) := tickItems nodes now elapsed false s.items
-      if es.isEmpty then ({ s with items := items }, none)
-      else ({ s with items := items, seqNext := s.seqNext + 1 },
-            some { seq := s.seqNext, time := now, body := .data es })
+  let (s, elapsed) := elapsedStep now timerTick s
+  let (s, notification) := collectStep nodes now elapsed s
   let avail := !s.notifs.isEmpty || notification.isSome
   let more := decide (s.notifs.length > 1)
   if avail || elapsed || reqQueued then
